@@ -109,7 +109,7 @@ func tokNames(ts []token.Token) string {
 }
 
 func c03(r *core.Run) {
-	r.Explain = "C03 (injectivity) cannot be decided statically; decided are its structural necessary conditions: (COVER) the renderer's dispatcher has a clause for every concrete instruction kind of the go/ssa version the target builds against and every clause observes every exported field of that kind (frozen exception list with reasons) and the result type where it is not determined by the operands; (LEAF) constants are rendered with their type on every path, function references with package identity, globals with package, name and type, free variables with their types; (PERM) a clause that sorts a sequence of the instruction keeps the elements' original indices observable; (GATE) each normalisation is guarded as its soundness argument requires — branch swap only for integer/string comparisons whose only user is that If, with two successors and the table {>=→<, >→<=}; commutative reordering only for {+,*,==,!=,&,|,^} with + numeric only; hoisting only for the pure builtins with map/channel len/cap excluded, invariant arguments and a unique pre-header; (ENUM) functions that carry source statements are not skipped. Not decided: that the rendered strings are injective, and every semantic question beyond 'was the attribute observed / was the guard present'."
+	r.Explain = "C03 (injectivity) cannot be decided statically; decided are its structural necessary conditions: (COVER) the renderer's dispatcher has a clause for every concrete instruction kind of the go/ssa version the target builds against and every clause observes every exported field of that kind (frozen exception list with reasons) and the result type where it is not determined by the operands; (LEAF) constants are rendered with their type on every path, function references with package identity, globals with package, name and type, free variables with their types; (PERM) a clause that sorts a sequence of the instruction keeps the elements' original indices observable; (GATE) each normalisation is guarded as its soundness argument requires — branch swap only for integer/string comparisons whose only user is that If, with two successors and the table {>=→<, >→<=}; commutative reordering only for {+,*,==,!=,&,|,^} with + numeric only; hoisting only for the pure builtins with map/channel len/cap excluded, invariant arguments and a unique pre-header; (ENUM) functions that carry source statements are not skipped. Not decided: that the rendered strings are injective, and every semantic question beyond 'was the attribute observed / was the guard present'. The map/channel exclusion of len/cap tests the operand type through Underlying(); the crosswise operand match of the zipper is analysed where its permission is computed (inline flag or predicate helper)."
 	r.Undecided = []string{"injectivity of the rendering as a whole (separator injection, hash collisions)", "behavioural equivalence of the swapped / reordered / hoisted forms (only their gating is decided)"}
 
 	c03Cover(r)
